@@ -1,146 +1,244 @@
 (* C09 oracle: judges the implementation's answers against the extracted Coq specifications.
    spec  = Zar.land/Zar.lor/... (Coq's infinite two's complement) and Int/BitsSpec.v
-   asis  = the sign tables regenerated from the Rust source (DashuGen.SignTables)             *)
+   asis  = the sign tables regenerated from the Rust source (DashuGen.SignTables), the word-level kernels
+           (Int/BitsKernels.v) and the operator forms around them (Int/BitsForms.v), run at word sizes
+           16, 32 and 64 on every case (value) and at the word size the harness build reports in a layout
+           token `L<bits>:<inline>:<len>:<cap>` (Repr compared word for word: inline / heap, length).   *)
 open Common
 open Model
 
 let sm x = if Zar.sign x < 0 then (Negative, Zar.neg x) else (Positive, x)
 let usz s = Zar.of_string_base 16 s
-
-let fidelity asis_val got =
-  match got with
-  | [ "ok"; g ] -> "asis=" ^ if hx asis_val = g then "same" else "diff"
-  | _ -> "asis=na"
-
-(* word-level as-is models run on 64-bit word lists (the harness build's word size) *)
-let w64 = Zar.of_int 64
+let wz = Zar.of_int
 let rec nat_of_int n = if n <= 0 then O else S (nat_of_int (n - 1))
-let words_of v = to_words w64 (nat_of_int ((Zar.numbits v + 63) / 64)) v
-let fid_opt model got = match got with
-  | [ "ok"; "some"; g ] -> "asis=" ^ (if hx model = g then "same" else "diff")
-  | _ -> "asis=na"
+let words_of w v = to_words (wz w) (nat_of_int ((Zar.numbits v + w - 1) / w)) v
+(* a magnitude is handed to the word-level models as its typed view (inline double word / heap words)
+   at word size w; C09_to_brepr proves that view faithful, C09_brepr_canonical proves it unique *)
+let br w m = to_brepr (wz w) m
+let bv w r = bvalue (wz w) r
+let all_w = [ 16; 32; 64 ]
 
-let prim_bits ty = match ty with
-  | "u8" | "i8" -> 8 | "u16" | "i16" -> 16 | "u32" | "i32" -> 32
-  | "u64" | "i64" | "usize" | "isize" -> 64 | _ -> 128
+let prim_ty ty = match ty with
+  | "u8" -> PUnsigned (wz 8) | "u16" -> PUnsigned (wz 16) | "u32" -> PUnsigned (wz 32)
+  | "u64" | "usize" -> PUnsigned (wz 64) | "u128" -> PUnsigned (wz 128)
+  | "i8" -> PSigned (wz 8) | "i16" -> PSigned (wz 16) | "i32" -> PSigned (wz 32)
+  | "i64" | "isize" -> PSigned (wz 64) | _ -> PSigned (wz 128)
 
-(* word-level as-is models (Int/BitsKernels.v, proved for every word size) run at the word size of
-   the harness build; a magnitude is handed over as its typed view (inline double word / heap
-   words), C09_to_brepr proves that view faithful *)
-let br m = to_brepr w64 m
-let bv r = bvalue w64 r
-let fid_tokens want got = "asis=" ^ (if got = "ok" :: want then "same" else "diff")
-(* two as-is answers (sign table on Z, and the same table over the word kernels) must both match *)
-let fid2 a b got = match got with
-  | [ "ok"; g ] -> "asis=" ^ (if hx a = g && hx b = g then "same" else "diff")
-  | _ -> "asis=na"
+(* ---------------------------------------------------------------- layout tokens *)
+type lay = LBig of int * bool * Zar.t * Zar.t | LPrim of int
+let parse_lay t =
+  match String.split_on_char ':' (String.sub t 1 (String.length t - 1)) with
+  | [ w; "p" ] -> LPrim (int_of_string w)
+  | [ w; i; l; c ] -> LBig (int_of_string w, i = "1", usz l, usz c)
+  | _ -> failwith "layout-token"
+let split_layout got =
+  let ls, rest = List.partition (fun t -> String.length t > 1 && t.[0] = 'L') got in
+  (List.map parse_lay ls, rest)
+let lay_of w r = let (i, l) = brepr_layout (wz w) r in (i, l)
+let lay_tok w r = let (i, l) = lay_of w r in Printf.sprintf "L%d:%s:%s:*" w (b2s i) (hx l)
+(* the reported Repr against the typed view r: inline flag, length, and the capacity field within the
+   bounds of the representation invariant (inline: max 1 len; heap: len <= cap <= len + len/4 + 4) *)
+let lay_matches w r (i, l, c) =
+  let (mi, ml) = lay_of w r in
+  mi = i && Zar.equal ml l &&
+  (if i then Zar.equal c (Zar.max Zar.one l)
+   else Zar.leq l c && Zar.leq c (Zar.add (Zar.add l (Zar.div l (wz 4))) (wz 4)))
 
-let judge op args got =
+(* ---------------------------------------------------------------- models of the big-valued operations *)
+type mres = MU of brepr | MI of Zar.t | MP of Zar.t result
+
+let own_of sfx = match sfx with "_vr" | "_asr" -> VR | "_rv" -> RV | "_rr" -> RR | _ -> VV
+let swap_own o = match o with VR -> RV | RV -> VR | o -> o
+let split_suffix op =
+  let ends s = let n = String.length s and m = String.length op in m >= n && String.sub op (m - n) n = s in
+  match List.find_opt ends [ "_vr"; "_rv"; "_rr"; "_asr"; "_as" ] with
+  | Some s -> (String.sub op 0 (String.length op - String.length s), s)
+  | None -> (op, "")
+let bop_of s = match s with "and" -> OpAnd | "or" -> OpOr | _ -> OpXor
+let zf f = match f with OpAnd -> Zar.logand | OpOr -> Zar.logor | OpXor -> Zar.logxor
+
+(* [big_model w op args] = Some (spec value, as-is results at word size w: all must agree with the answer) *)
+let big_model w op args : (Zar.t * mres list) option =
   let a i = z (List.nth args i) in
   let n i = usz (List.nth args i) in
-  let bin own tbl wtbl f =
-    let x = a 0 and y = a 1 in
-    let s0, m0 = sm x and s1, m1 = sm y in
-    expect ~extra:(fid2 (tbl s0 m0 s1 m1) (wtbl own s0 (br m0) s1 (br m1)) got) ("ok " ^ hx (f x y)) got
-  in
-  let ubin own wop f =
-    let x = a 0 and y = a 1 in
-    expect ~extra:(fid_tokens [ hx (bv (wop w64 own (br x) (br y))) ] got) ("ok " ^ hx (f x y)) got
-  in
-  match op with
-  | "and" -> bin VV ibig_bitand_gen (ibig_bitand_asis w64) Zar.logand
-  | "and_vr" -> bin VR ibig_bitand_gen (ibig_bitand_asis w64) Zar.logand
-  | "and_rv" -> bin RV ibig_bitand_gen (ibig_bitand_asis w64) Zar.logand
-  | "and_rr" -> bin RR ibig_bitand_gen (ibig_bitand_asis w64) Zar.logand
-  | "or" | "or_ui" | "or_iu" -> bin VV ibig_bitor_gen (ibig_bitor_asis w64) Zar.logor
-  | "or_vr" -> bin VR ibig_bitor_gen (ibig_bitor_asis w64) Zar.logor
-  | "or_rv" -> bin RV ibig_bitor_gen (ibig_bitor_asis w64) Zar.logor
-  | "or_rr" -> bin RR ibig_bitor_gen (ibig_bitor_asis w64) Zar.logor
-  | "xor" | "xor_ui" | "xor_iu" -> bin VV ibig_bitxor_gen (ibig_bitxor_asis w64) Zar.logxor
-  | "xor_vr" -> bin VR ibig_bitxor_gen (ibig_bitxor_asis w64) Zar.logxor
-  | "xor_rv" -> bin RV ibig_bitxor_gen (ibig_bitxor_asis w64) Zar.logxor
-  | "xor_rr" -> bin RR ibig_bitxor_gen (ibig_bitxor_asis w64) Zar.logxor
-  | "uand" -> ubin VV repr_bitand Zar.logand
-  | "uand_vr" -> ubin VR repr_bitand Zar.logand
-  | "uand_rv" -> ubin RV repr_bitand Zar.logand
-  | "uand_rr" -> ubin RR repr_bitand Zar.logand
-  | "uor" -> ubin VV repr_bitor Zar.logor
-  | "uor_vr" -> ubin VR repr_bitor Zar.logor
-  | "uor_rv" -> ubin RV repr_bitor Zar.logor
-  | "uor_rr" -> ubin RR repr_bitor Zar.logor
-  | "uxor" -> ubin VV repr_bitxor Zar.logxor
-  | "uxor_vr" -> ubin VR repr_bitxor Zar.logxor
-  | "uxor_rv" -> ubin RV repr_bitxor Zar.logxor
-  | "uxor_rr" -> ubin RR repr_bitxor Zar.logxor
-  | "and_ui" -> bin VV ubig_ibig_bitand_gen (ibig_bitand_asis w64) Zar.logand
+  let ww = wz w in
+  match String.split_on_char '.' op with
+  | [ kind; fs; form ] when kind = "pu" || kind = "pi" || kind = "ps" ->
+      let f = bop_of fs in
+      let t = prim_ty (List.nth args 0) and x = a 1 and p = a 2 in
+      let spec = zf f x p in
+      let pf = (match form with
+        | "bv" | "bvr" -> Some (PF_big_prim false) | "rv" | "rvr" -> Some (PF_big_prim true)
+        | "pb" | "rpb" -> Some (PF_prim_big false) | "pr" | "rpr" -> Some (PF_prim_big true)
+        | _ -> None) in
+      let ret_prim = f = OpAnd && kind <> "ps" in
+      let s, m = sm x in
+      Some (spec, [ (match pf, kind with
+        | Some pf, "pu" -> MP (ubig_prim_asis ww pf f ret_prim t (br w x) p)
+        | Some pf, _ -> MP (ibig_prim_asis ww pf f ret_prim t s (br w m) p)
+        | None, "pu" -> MU (ubig_prim_assign_asis ww f (br w x) p)
+        | None, _ -> MI (ibig_prim_assign_asis ww f s (br w m) p)) ])
+  | _ ->
+  let base, sfx = split_suffix op in
+  let o = own_of sfx in
+  let ibin f tbl =
+    let x = a 0 and y = a 1 in let s0, m0 = sm x and s1, m1 = sm y in
+    Some (zf f x y, [ MI (ibig_op ww o f s0 (br w m0) s1 (br w m1)); MI (tbl s0 m0 s1 m1) ]) in
+  (* the hand-written dispatch and the one regenerated from bits.rs on this run *)
+  let gen_dispatch f = match f, o with
+    | OpAnd, VV -> gen_bitand_vv | OpAnd, VR -> gen_bitand_vr | OpAnd, RV -> gen_bitand_rv | OpAnd, RR -> gen_bitand_rr
+    | OpOr, VV -> gen_bitor_vv | OpOr, VR -> gen_bitor_vr | OpOr, RV -> gen_bitor_rv | OpOr, RR -> gen_bitor_rr
+    | OpXor, VV -> gen_bitxor_vv | OpXor, VR -> gen_bitxor_vr | OpXor, RV -> gen_bitxor_rv | OpXor, RR -> gen_bitxor_rr in
+  let ubin f = let x = a 0 and y = a 1 in
+    Some (zf f x y, [ MU (ubig_op ww o f (br w x) (br w y)); MU (gen_dispatch f ww (br w x) (br w y)) ]) in
+  match base with
+  | "and" -> ibin OpAnd ibig_bitand_gen
+  | "or" | "or_ui" | "or_iu" -> ibin OpOr ibig_bitor_gen
+  | "xor" | "xor_ui" | "xor_iu" -> ibin OpXor ibig_bitxor_gen
+  | "uand" -> ubin OpAnd | "uor" -> ubin OpOr | "uxor" -> ubin OpXor
+  | "and_ui" ->
+      let x = a 0 and y = a 1 in let s1, m1 = sm y in
+      Some (Zar.logand x y, [ MI (ibig_bitand_asis ww o Positive (br w x) s1 (br w m1)); MI (ubig_ibig_bitand_gen Positive x s1 m1) ])
   | "and_iu" ->
       (* impl_ibig_ubig_bitand: the unsigned operand (second) is the receiver of bitand / and_not *)
-      bin VV ibig_ubig_bitand_gen (fun own s0 r0 _ r1 -> ibig_bitand_asis w64 own Positive r1 s0 r0) Zar.logand
-  | "not" -> let x = a 0 in let s, m = sm x in expect ~extra:(fidelity (ibig_not_gen s m) got) ("ok " ^ hx (Zar.lognot x)) got
-  | "not_r" -> let x = a 0 in let s, m = sm x in expect ~extra:(fidelity (ibig_not_ref_gen s m) got) ("ok " ^ hx (Zar.lognot x)) got
+      let x = a 0 and y = a 1 in let s0, m0 = sm x in
+      Some (Zar.logand x y, [ MI (ibig_bitand_asis ww (swap_own o) Positive (br w y) s0 (br w m0)); MI (ibig_ubig_bitand_gen s0 m0 Positive y) ])
+  | _ ->
+  let shift_ref = List.mem op [ "shl_r"; "shr_r"; "shl_rpr"; "shr_rpr"; "ushl_r"; "ushr_r"; "ushl_rpr"; "ushr_rpr" ] in
+  match op with
+  | "not" -> let x = a 0 in let s, m = sm x in Some (Zar.lognot x, [ MI (ibig_not_gen s m) ])
+  | "not_r" -> let x = a 0 in let s, m = sm x in Some (Zar.lognot x, [ MI (ibig_not_ref_gen s m) ])
+  | "uand_p" | "uor_p" | "uxor_p" | "iand_pu" | "ior_pu" | "ixor_pu" | "iand_pi" | "ior_pi" | "ixor_pi" -> None
+  | "shl" | "shl_r" | "shl_pr" | "shl_rpr" | "shl_assign" | "shl_assign_pr" ->
+      let x = a 0 in let s, m = sm x in
+      Some (Zar.shift_left x (Zar.to_int (n 1)),
+            [ MI (ibig_shl_form ww shift_ref true s (br w m) (n 1)); MI (ibig_shl_form ww shift_ref false s (br w m) (n 1)) ])
+  | "shr" | "shr_r" | "shr_pr" | "shr_rpr" | "shr_assign" | "shr_assign_pr" ->
+      let x = a 0 in let s, m = sm x in
+      Some (Zar.shift_right x (Zar.to_int (n 1)),
+            [ MI (ibig_shr_form ww shift_ref s (br w m) (n 1));
+              MI ((if shift_ref then ibig_shr_ref_gen else ibig_shr_gen) s m (n 1)) ])
+  | "ushl" | "ushl_r" | "ushl_pr" | "ushl_rpr" | "ushl_assign" | "ushl_assign_pr" ->
+      let x = a 0 in
+      Some (Zar.shift_left x (Zar.to_int (n 1)),
+            [ MU (ubig_shl_form ww shift_ref true (br w x) (n 1)); MU (ubig_shl_form ww shift_ref false (br w x) (n 1)) ])
+  | "ushr" | "ushr_r" | "ushr_pr" | "ushr_rpr" | "ushr_assign" | "ushr_assign_pr" ->
+      let x = a 0 in Some (Zar.shift_right x (Zar.to_int (n 1)), [ MU (ubig_shr_form ww shift_ref (br w x) (n 1)) ])
+  | "set_bit" -> Some (set_bit_spec (a 0) (n 1), [ MU (repr_set_bit ww (br w (a 0)) (n 1)) ])
+  | "clear_bit" -> Some (clear_bit_spec (a 0) (n 1), [ MU (repr_clear_bit ww (br w (a 0)) (n 1)) ])
+  | "clear_high_bits" -> Some (clear_high_bits_spec (a 0) (n 1), [ MU (repr_clear_high_bits ww (br w (a 0)) (n 1)) ])
+  | "next_pow2" -> Some (next_power_of_two_spec (a 0), [ MU (repr_next_power_of_two ww (br w (a 0))) ])
+  | _ -> None
+
+(* does one as-is result reproduce the answered value (and, at the build's word size, the layout)? *)
+let mres_value w r = match r with
+  | MU b -> Some (bv w b) | MI v -> Some v | MP (Ok v) -> Some v | MP _ -> None
+let mres_repr w r = match r with
+  | MU b -> Some b | MI v | MP (Ok v) -> Some (br w (Zar.abs v)) | MP _ -> None
+
+let judge_big op args got =
+  let lays, rest = split_layout got in
+  match big_model 64 op args with
+  | None -> None
+  | Some (spec, _) ->
+      let want = "ok " ^ hx spec in
+      (* fidelity: value at every word size; Repr at the word size of the build *)
+      let value_ok w =
+        match big_model w op args with
+        | Some (_, rs) -> List.for_all (fun r -> match mres_value w r with Some v -> rest = [ "ok"; hx v ] | None -> false) rs
+        | None -> false in
+      let same = ref (List.for_all value_ok all_w) in
+      let verdict_lay = ref None in
+      (match lays with
+       | [ LBig (w, i, l, c) ] ->
+           (match big_model w op args with
+            | Some (_, rs) ->
+                List.iter (fun r -> match mres_repr w r with
+                  | Some b -> if not (lay_matches w b (i, l, c)) then same := false
+                  | None -> same := false) rs
+            | None -> same := false);
+           (* verdict: the Repr must be the canonical one of the specified value *)
+           let canon = br w (Zar.abs spec) in
+           if not (lay_matches w canon (i, l, c)) then verdict_lay := Some (want ^ " " ^ lay_tok w canon)
+       | [ LPrim _ ] | [] -> ()
+       | _ -> same := false);
+      let extra = "asis=" ^ (if !same then "same" else "diff") in
+      Some (match !verdict_lay with
+            | Some w -> if split_ws want = rest then fail w else fail want
+            | None -> expect ~extra want rest)
+
+(* ---------------------------------------------------------------- the remaining operations *)
+let fid_all f = "asis=" ^ (if List.for_all f all_w then "same" else "diff")
+
+let judge op args got =
+  let lay_op, op = if String.length op > 4 && String.sub op 0 4 = "lay." then (true, String.sub op 4 (String.length op - 4)) else (false, op) in
+  ignore lay_op;
+  match judge_big op args got with
+  | Some v -> v
+  | None ->
+  let a i = z (List.nth args i) in
+  let n i = usz (List.nth args i) in
+  let lays, rest = split_layout got in
+  let toks want = "ok" :: want in
+  match op with
   | "uand_p" | "uor_p" | "uxor_p" | "iand_pu" | "ior_pu" | "ixor_pu" | "iand_pi" | "ior_pi" | "ixor_pi" ->
       let x = a 1 and p = a 2 in
       let f = (match String.sub op 1 2 with "an" -> Zar.logand | "or" -> Zar.logor | _ -> Zar.logxor) in
       expect ("ok " ^ hx (f x p)) got
-  | "shl" | "shl_r" ->
-      let x = a 0 in let s, m = sm x in
-      let asis = if op = "shl" then ibig_shl_asis w64 s true (br m) (n 1) else signed s (bv (repr_shl_ref w64 (br m) (n 1))) in
-      expect ~extra:(fid_tokens [ hx asis ] got) ("ok " ^ hx (Zar.shift_left x (Zar.to_int (n 1)))) got
-  | "ushl" | "ushl_assign" | "ushl_r" ->
-      let x = a 0 in
-      let asis = if op = "ushl_r" then repr_shl_ref w64 (br x) (n 1) else repr_shl w64 true (br x) (n 1) in
-      expect ~extra:(fid_tokens [ hx (bv asis) ] got) ("ok " ^ hx (Zar.shift_left x (Zar.to_int (n 1)))) got
-  | "shr" | "shr_assign" -> let x = a 0 in let s, m = sm x in
-      expect ~extra:(fid2 (ibig_shr_gen s m (n 1)) (ibig_shr_asis w64 s (br m) (n 1)) got) ("ok " ^ hx (Zar.shift_right x (Zar.to_int (n 1)))) got
-  | "shr_r" -> let x = a 0 in let s, m = sm x in
-      expect ~extra:(fid2 (ibig_shr_ref_gen s m (n 1)) (ibig_shr_ref_asis w64 s (br m) (n 1)) got) ("ok " ^ hx (Zar.shift_right x (Zar.to_int (n 1)))) got
-  | "ushr" | "ushr_r" ->
-      let x = a 0 in
-      let asis = if op = "ushr" then repr_shr w64 (br x) (n 1) else repr_shr_ref w64 (br x) (n 1) in
-      expect ~extra:(fid_tokens [ hx (bv asis) ] got) ("ok " ^ hx (Zar.shift_right x (Zar.to_int (n 1)))) got
   | "ubit" ->
       let x = a 0 in
-      expect ~extra:(fid_tokens [ b2s (repr_bit w64 (br x) (n 1)) ] got) ("ok " ^ b2s (Zar.testbit x (Zar.to_int (n 1)))) got
+      expect ~extra:(fid_all (fun w -> rest = toks [ b2s (repr_bit (wz w) (br w x) (n 1)) ])) ("ok " ^ b2s (Zar.testbit x (Zar.to_int (n 1)))) got
   | "bit" ->
       let x = a 0 in let s, m = sm x in
-      let extra = if Zar.sign x = 0 then "" else fid_tokens [ b2s (ibig_bit w64 s (br m) (n 1)) ] got in
+      let extra = if Zar.sign x = 0 then "" else fid_all (fun w -> rest = toks [ b2s (ibig_bit (wz w) s (br w m) (n 1)) ]) in
       expect ~extra ("ok " ^ b2s (Zar.testbit x (Zar.to_int (n 1)))) got
   | "bit_len" | "ubit_len" ->
       let x = a 0 in
-      expect ~extra:(fid_tokens [ hx (repr_bit_len w64 (br (Zar.abs x))) ] got) ("ok " ^ hx (bit_len_spec x)) got
-  | "set_bit" ->
-      expect ~extra:(fid_tokens [ hx (bv (repr_set_bit w64 (br (a 0)) (n 1))) ] got) ("ok " ^ hx (set_bit_spec (a 0) (n 1))) got
-  | "clear_bit" ->
-      expect ~extra:(fid_tokens [ hx (bv (repr_clear_bit w64 (br (a 0)) (n 1))) ] got) ("ok " ^ hx (clear_bit_spec (a 0) (n 1))) got
+      expect ~extra:(fid_all (fun w -> rest = toks [ hx (repr_bit_len (wz w) (br w (Zar.abs x))) ])) ("ok " ^ hx (bit_len_spec x)) got
   | "utz" | "tz" ->
       let x = a 0 in
-      expect ~extra:(fid_tokens (split_ws (hopt (repr_trailing_zeros w64 (br (Zar.abs x))))) got) ("ok " ^ hopt (trailing_zeros_spec x)) got
+      expect ~extra:(fid_all (fun w -> rest = toks (split_ws (hopt (repr_trailing_zeros (wz w) (br w (Zar.abs x)))))))
+        ("ok " ^ hopt (trailing_zeros_spec x)) got
   | "uto" ->
       let x = a 0 in
       (* two word-level answers: the scanning kernel on the raw words and the typed dispatch *)
-      let k = repr_trailing_ones w64 (br x) in
-      let extra = if Zar.numbits x > 128 && not (Zar.equal k (trailing_ones_large w64 (words_of x))) then "asis=diff"
-                  else fid_tokens [ "some"; hx k ] got in
-      expect ~extra ("ok " ^ hopt (trailing_ones_spec x)) got
+      let f w =
+        let k = repr_trailing_ones (wz w) (br w x) in
+        (Zar.numbits x <= 2 * w || Zar.equal k (trailing_ones_large (wz w) (words_of w x))) && rest = toks [ "some"; hx k ] in
+      expect ~extra:(fid_all f) ("ok " ^ hopt (trailing_ones_spec x)) got
   | "to" ->
       let x = a 0 in let s, m = sm x in
-      expect ~extra:(fid_tokens (split_ws (hopt (ibig_trailing_ones w64 s (br m)))) got) ("ok " ^ hopt (trailing_ones_spec x)) got
+      expect ~extra:(fid_all (fun w -> rest = toks (split_ws (hopt (ibig_trailing_ones (wz w) s (br w m))))))
+        ("ok " ^ hopt (trailing_ones_spec x)) got
   | "count_ones" ->
-      expect ~extra:(fid_tokens [ hx (repr_count_ones (br (a 0))) ] got) ("ok " ^ hx (count_ones_spec (a 0))) got
+      expect ~extra:(fid_all (fun w -> rest = toks [ hx (repr_count_ones (br w (a 0))) ])) ("ok " ^ hx (count_ones_spec (a 0))) got
   | "count_zeros" ->
-      expect ~extra:(fid_tokens (split_ws (hopt (repr_count_zeros w64 (br (a 0))))) got) ("ok " ^ hopt (count_zeros_spec (a 0))) got
+      expect ~extra:(fid_all (fun w -> rest = toks (split_ws (hopt (repr_count_zeros (wz w) (br w (a 0)))))))
+        ("ok " ^ hopt (count_zeros_spec (a 0))) got
   | "split_bits" ->
       let (lo, hi) = split_bits_spec (a 0) (n 1) in
-      let (alo, ahi) = repr_split_bits w64 (br (a 0)) (n 1) in
-      expect ~extra:(fid_tokens [ hx (bv alo); hx (bv ahi) ] got) ("ok " ^ hx lo ^ " " ^ hx hi) got
-  | "clear_high_bits" ->
-      expect ~extra:(fid_tokens [ hx (bv (repr_clear_high_bits w64 (br (a 0)) (n 1))) ] got) ("ok " ^ hx (clear_high_bits_spec (a 0) (n 1))) got
+      let want = "ok " ^ hx lo ^ " " ^ hx hi in
+      let f w = let (alo, ahi) = repr_split_bits (wz w) (br w (a 0)) (n 1) in rest = toks [ hx (bv w alo); hx (bv w ahi) ] in
+      (match lays with
+       | [ LBig (w, i0, l0, c0); LBig (_, i1, l1, c1) ] ->
+           let (alo, ahi) = repr_split_bits (wz w) (br w (a 0)) (n 1) in
+           let same = List.for_all f all_w && lay_matches w alo (i0, l0, c0) && lay_matches w ahi (i1, l1, c1) in
+           if lay_matches w (br w lo) (i0, l0, c0) && lay_matches w (br w hi) (i1, l1, c1)
+           then expect ~extra:("asis=" ^ if same then "same" else "diff") want rest
+           else fail (want ^ " " ^ lay_tok w (br w lo) ^ " " ^ lay_tok w (br w hi))
+       | _ -> expect ~extra:(fid_all f) want rest)
   | "is_pow2" ->
-      expect ~extra:(fid_tokens [ b2s (repr_is_power_of_two (br (a 0))) ] got) ("ok " ^ b2s (is_power_of_two_spec (a 0))) got
-  | "next_pow2" ->
-      expect ~extra:(fid_tokens [ hx (bv (repr_next_power_of_two w64 (br (a 0)))) ] got) ("ok " ^ hx (next_power_of_two_spec (a 0))) got
+      expect ~extra:(fid_all (fun w -> rest = toks [ b2s (repr_is_power_of_two (br w (a 0))) ])) ("ok " ^ b2s (is_power_of_two_spec (a 0))) got
   | "ones" ->
-      expect ~extra:(fid_tokens [ hx (bv (repr_ones w64 (n 0))); "1" ] got) ("ok " ^ hx (ones_spec (n 0)) ^ " 1") got
+      let want = "ok " ^ hx (ones_spec (n 0)) ^ " 1" in
+      let f w = rest = toks [ hx (bv w (repr_ones (wz w) (n 0))); "1" ] in
+      (match lays with
+       | [ LBig (w, i, l, c) ] ->
+           let same = List.for_all f all_w && lay_matches w (repr_ones (wz w) (n 0)) (i, l, c) in
+           if lay_matches w (br w (ones_spec (n 0))) (i, l, c)
+           then expect ~extra:("asis=" ^ if same then "same" else "diff") want rest
+           else fail (want ^ " " ^ lay_tok w (br w (ones_spec (n 0))))
+       | _ -> expect ~extra:(fid_all f) want rest)
   | _ -> fail ("unknown-op-" ^ op)
 
 let () = serve judge
